@@ -7,7 +7,7 @@ CLAIMED = {
  "C06": dict(
    text="Seeded search over what must not matter to a seeded forest: every run fits the same forest twice — twin A under one simulator-owned ambient RNG stream, then other estimators run (history pollution), then twin B on another OS thread under a different stream; each twin is driven with a generated call sequence (predict / predict_oob / predict on a same-shape, single-row and stacked matrix, with repetitions) (seeded, extreme words, or no simulator source at all) — and a prefix of every batch is re-run in a second OS process. A further batch injects faults into the forest's own seeded generator (seam S1b: boundary words 0/1/MAX/... at a seeded subset of its draws, the same plan for every twin, so the stream stays a pure function of the seed): bootstrap samples and sub-seeds a ChaCha stream reaches with negligible probability. Another batch adds an adversarial comparator party: the tree fits' own index sort (real code, driven through its generic element type behind a cfg-guarded wrapper) is led through its worst case by lazily decided comparisons (McIlroy's adversary), and the resulting order becomes a feature column of the twins. A cfg-guarded probe at the start of every tree fit logs the sample each tree is grown from, and the masks the model keeps are checked against that history. Forests are also asked 1e3..4e6 rows in one call, the same rows again in another order and from another thread, through ndarray / nalgebra matrices, and - restored from their serialised form - the same questions again. Twins must be byte-identical (bincode), equal under the model's own PartialEq, predict identically, and consume zero ambient words (tape log). Aggregation, out-of-bag aggregation over exactly the trees whose bootstrap mask excludes the row, stratification, range and tree-count are judged on the recorded history (serde image of trees[]/samples[], member trees rebuilt and their real predict called).",
    design_ref="DESIGN.md 5.4",
-   note="Trusts: patched rand 0.8.8 (ThreadRng word source; StdRng untouched unless a fault plan is installed, then a pure function of seed+plan), serde/bincode as observation channel. Rows without any out-of-bag tree are not judged. Real: both forests, both trees, StdRng, the index sort. Stub: ambient ThreadRng entropy; the element type of the sort during the adversary's construction (comparisons answered by the party).",
+   note="Trusts: patched rand 0.8.8 (ThreadRng word source; StdRng untouched unless a fault plan is installed, then a pure function of seed+plan), serde/bincode as observation channel, the add-only cfg(smartcore_verif) tree-fit probe (thread-local: the mask clause is skipped when the history is incomplete) and sort wrapper in /repo/src/verif.rs. Rows without any out-of-bag tree are only judged for row-independence of the empty aggregate. Real: both forests, both trees, StdRng, the index sort. Stub: ambient ThreadRng entropy; the element type of the sort during the adversary's construction (comparisons answered by the party).",
    technique="deterministic simulation: twin fits under perturbed ambient RNG / thread / process / history (fault injection around the seed), recorded-history aggregation oracles vs reference plurality/mean model"),
  "C16": dict(
    text="Seeded search over the schedules the property quantifies over: every permutation KFold/train_test_split can draw is decided by the simulator through the patched ThreadRng seam (all n! orders for n<=5 exhaustively, >1e5 distinct decoded permutations per quick run for n<=64, extreme words at random draw sites), shuffle-off enumerated exhaustively for all 2<=k<=n<=64; leakage is judged from the rows the recording estimator/scorer parties actually receive, as in-run invariants and as a check over the recorded history, also under injected estimator failures and with harness-owned splitters (training lists that are not the complement, unsorted, resampled with repetitions, empty test lists, nominal n_splits), in sessions of several calls on one thread (each call judged), with two split iterators alive at once and advanced in a seeded interleaving, with iterators that change threads, and across counter boundaries (2^8 / 2^16 calls or folds between two identical splits). Few-run batches reach the far ends of the domain (train_test_split on > 2^24 rows, KFold with > 65536 folds streamed from the iterator). A clean batch is evidence, not proof, for n>5 with shuffling on.",
